@@ -1,5 +1,35 @@
 """C04 — see DESIGN.md section 6."""
 from proto_engine import *
+import fmt_engine
+
+
+def reccut_stage(ctx, cov):
+    """recovery restarted on TTL devices with several generations per key: recovery's own write
+    trace is cut at every write and the device recovered again (fmt harness section `reccut`)"""
+    ok, out = cargo_build(ctx, ["fmt"])
+    if not ok:
+        return
+    quick = ctx.tier == "quick"
+    outs = fmt_engine.run_fmt(ctx, ["reccut"], 8 if quick else 16, ["workloads=%d" % (4 if quick else 40), "mutations=6"])
+    kinds = fmt_engine.merge_hist(outs)
+    reported = 0
+    for o in outs:
+        if "crash" in o:
+            violation(ctx, "fmt harness (recovery cuts on multi-generation TTL devices) did not finish: " + o["crash"], o["crash"], tag="crash")
+            continue
+        for l in read_lines(os.path.join(o["dir"], "fmt.oracle")):
+            if reported < 2:
+                reported += 1
+                toks = []
+                for t in l.split(" "):
+                    if t.startswith("/dev/shm/") and os.path.exists(t):
+                        t = keep_file(ctx, t, "reccut%d" % reported)
+                    toks.append(t)
+                violation(ctx, "recovery is not idempotent / restartable: " + " ".join(toks)[:500], "# %s\n" % " ".join(toks), tag="reccut")
+    n = kinds.get("reccut-restart", 0)
+    ctx.log("recovery-cut stage: %d restarted recoveries on multi-generation TTL devices, %d differing" % (n, reported))
+    cov["ttl_recovery_restarts"] = n
+    cov["ttl_recovery_cut_histogram"] = {k: v for k, v in kinds.items() if k.startswith("reccut")}
 
 MODULE = "Feox.Props.C04"
 THEOREMS = ['Feox.C04.replay_restartable', 'Feox.C04.replay_idempotent', 'Feox.C04.repairs_touch_no_live', 'Feox.C04.loser_retirement_restartable', 'Feox.C04.winner_depends_on_disk_only', 'Feox.Proto.maskRun_idem']
@@ -11,4 +41,5 @@ def run(ctx):
         "TornDetect: a torn journal slot / metadata block fails its checksum or equals the old or the new image (DESIGN.md section 2) — a hypothesis, not an axiom",
         "the abstract disk (Feox.Proto.Disk) is related to bytes by the Lean reader Feox.Fmt.recoverImage, itself compared with the real recovery on every crash image of this run",
         "faults are injected at the I/O hook (synchronous path; io_uring disabled), not in the kernel",
-    ], lambda op: op.startswith("fmt recover"))
+        "recovery cuts on TTL devices with several generations per key (expired / live / no expiry at recovery time, built by copying a real record to a free block): every write of recovery's own trace is a cut, with all issued writes landed or only the fsynced ones plus a random subset",
+    ], lambda op: op.startswith("fmt recover"), pre_finish=reccut_stage)
